@@ -95,10 +95,9 @@ def _is_contents_iter(it):
     return isinstance(it, ast.Attribute) and it.attr == 'contents'
 
 
-def run(ctx):
-    # contents are keyed by Substance objects: the key laws this property's bookkeeping relies on
-    from .identity import identity_discipline as _identity
-    _identity(ctx, 'C02.R1', classes=('Substance',), memoised=False)
+def transfer_measures(ctx, rule='C02.R1', units=True):
+    """Each unit branch of Container._transfer computes requested / total with the total over exactly the kinds of
+    substance the property assigns to that unit."""
     model = ctx.model
     tr = model.func('Container._transfer')
     ff = ctx.flow('Container._transfer')
@@ -110,7 +109,8 @@ def run(ctx):
     options = [o for o in definitions_of(ratio_val) if isinstance(o, Ref)]
     # units of everything in the transfer (engine U)
     sc = targets.scan(ctx, 'Container._transfer')
-    uscan.report_sinks(ctx, lambda cat: 'C02.R1' if cat in ('convert-from-unit', 'sum-mix', 'add-units', 'to-storage',
+    if units:
+        uscan.report_sinks(ctx, lambda cat: rule if cat in ('convert-from-unit', 'sum-mix', 'add-units', 'to-storage',
                                                             'qstr', 'storage-label', 'compare-units', 'store-contents',
                                                             'from-storage', 'round-then-scale') else None, sc)
     seen_units = set()
@@ -120,7 +120,7 @@ def run(ctx):
         unit_lbl = branch_label(ff.state_before(o.stmt))
         seen_units.add(unit_lbl)
         if not (isinstance(v, ast.BinOp) and isinstance(v.op, ast.Div)):
-            ctx.ob('C02.R1', tr, o.lineno, f"ratio on the `{unit_lbl}` branch is requested / total", False,
+            ctx.ob(rule, tr, o.lineno, f"ratio on the `{unit_lbl}` branch is requested / total", False,
                    fact=show(v, 80), why='the transfer ratio is not a quotient', key=f"ratio shape {unit_lbl}")
             continue
         num, den = v.left, v.right
@@ -131,7 +131,7 @@ def run(ctx):
                              isinstance(root_of_expr(n.value), Param) and root_of_expr(n.value).name == src_param)
         den_other = depends_on(den, lambda n: isinstance(n, ast.Attribute) and n.attr in ('contents', 'volume') and
                                isinstance(root_of_expr(n.value), Param) and root_of_expr(n.value).name != src_param)
-        ctx.ob('C02.R1', tr, o.lineno, f"`{unit_lbl}` branch: ratio = requested quantity / total of the source",
+        ctx.ob(rule, tr, o.lineno, f"`{unit_lbl}` branch: ratio = requested quantity / total of the source",
                ok_num and den_src and not den_other and not user_derived(den),
                fact=f"numerator from the user quantity: {ok_num}; denominator from the source: {den_src}",
                why='the fraction moved is not requested / available-in-the-source (e.g. inverted, or measured on the '
@@ -142,7 +142,7 @@ def run(ctx):
             if line == o.lineno and name == o.name:
                 units |= us
         ok_dim = bool(units) and units <= {'1', '0'}
-        ctx.ob('C02.R1', tr, o.lineno, f"`{unit_lbl}` branch: requested and total are in the same unit", ok_dim,
+        ctx.ob(rule, tr, o.lineno, f"`{unit_lbl}` branch: requested and total are in the same unit", ok_dim,
                fact=f"unit of the ratio over all paths and kinds: {sorted(units)}",
                why='requested amount and total are measured in different units: the aliquot has the wrong size',
                key=f"ratio unit {unit_lbl}")
@@ -162,19 +162,29 @@ def run(ctx):
             kinds, api, it = td
             ok = kinds == want or (api and kinds is not None and kinds >= want)
             fact = f"sums over kinds {sorted(kinds) if kinds is not None else '?'}" + (' through the Unit API' if api else ' (raw stored amounts)')
-        ctx.ob('C02.R1', tr, o.lineno, f"`{unit_lbl}` branch: the total is the measure of the mixture for that unit "
+        ctx.ob(rule, tr, o.lineno, f"`{unit_lbl}` branch: the total is the measure of the mixture for that unit "
                                        f"({sorted(want)})", ok, fact=fact,
                why='the total leaves out or wrongly includes a kind of substance: the aliquot is too large or too small',
                key=f"measure kinds {unit_lbl}")
     for u in ('L', 'g', 'mol', 'U'):
-        ctx.ob('C02.R1', tr, tr.node.lineno, f"quantity unit {u} has a branch", u in seen_units, nontrivial=False,
+        ctx.ob(rule, tr, tr.node.lineno, f"quantity unit {u} has a branch", u in seen_units, nontrivial=False,
                why='a quantity unit named by the property is not handled', key=f"unit branch {u}")
 
     if uses_stored_volume:
         # the volume branch divides by the stored volume of the source: the aliquot has the requested size only if
         # every writer of a container's contents leaves the stored volume equal to the volume of those contents
         from . import c10
-        c10.pairing(ctx, 'C02.R1')
+        c10.pairing(ctx, rule)
+
+    return tr, ff, options, loop
+
+
+def run(ctx):
+    # contents are keyed by Substance objects: the key laws this property's bookkeeping relies on
+    from .identity import identity_discipline as _identity
+    _identity(ctx, 'C02.R1', classes=('Substance',), memoised=False)
+    tr, ff, options, loop = transfer_measures(ctx)
+    model = ctx.model
 
     # sibling agreement: the other totals of a mixture
     siblings(ctx)
